@@ -17,26 +17,11 @@ import (
 	gohlslib "github.com/bluenviron/gohlslib/v2"
 	"github.com/bluenviron/gohlslib/v2/pkg/codecs"
 	"github.com/bluenviron/gohlslib/v2/pkg/storage"
+	"github.com/bluenviron/mediacommon/v2/pkg/codecs/h264"
 	"github.com/bluenviron/mediacommon/v2/pkg/codecs/h265"
 	"github.com/bluenviron/mediacommon/v2/pkg/codecs/mpeg4audio"
 	"github.com/bluenviron/mediacommon/v2/pkg/formats/fmp4"
 )
-
-// baseline profile, pic_order_cnt_type 2 (dts = pts); byte 3 is level_idc
-var baseSPS = []byte{
-	0x67, 0x42, 0xc0, 0x28, 0xd9, 0x00, 0x78, 0x02,
-	0x27, 0xe5, 0x84, 0x00, 0x00, 0x03, 0x00, 0x04,
-	0x00, 0x00, 0x03, 0x00, 0xf0, 0x3c, 0x60, 0xc9,
-	0x20,
-}
-
-func spsOf(p int64) []byte {
-	s := append([]byte{}, baseSPS...)
-	levels := []byte{0x28, 0x29, 0x2a}
-	s[3] = levels[(p/4)%3]
-	return s
-}
-func ppsOf(p int64) []byte { return []byte{0x68, 0x10 + byte(p)} }
 
 func encID(id int64) []byte {
 	b := make([]byte, 8)
@@ -104,14 +89,14 @@ func concretize(h *history, a *auA) concrete {
 	case kH264:
 		var au [][]byte
 		if a.HasParams {
-			au = append(au, spsOf(a.Params), ppsOf(a.Params))
+			au = append(au, spsOf(h, a.Params), ppsOf(a.Params))
 		}
 		u := a.Units[0]
 		if a.RA {
-			au = append(au, append([]byte{0x65}, fill(u.ID, u.Len)...))
+			au = append(au, h264SliceNALU(h, a, u, true))
 		}
 		if a.NonIDR {
-			au = append(au, append([]byte{0x41}, fill(u.ID, u.Len)...))
+			au = append(au, h264SliceNALU(h, a, u, false))
 		}
 		if !a.RA && !a.NonIDR && !a.HasParams {
 			au = append(au, append([]byte{0x06}, fill(u.ID, 12)...)) // SEI only
@@ -212,6 +197,7 @@ func annotate(h *history) {
 	// shadow DTS extractors (H265): the abstract dts is what the muxer's own extractor must return for
 	// the concrete access units; a disagreement is a concretisation / history defect, reported loudly
 	shadow := map[int]*h265.DTSExtractor{}
+	shadow264 := map[int]*h264.DTSExtractor{}
 	warned := false
 	for i := range h.Ops {
 		a := &h.Ops[i]
@@ -228,6 +214,21 @@ func annotate(h *history) {
 				if d, err := ex.Extract(c.au, a.PTS); (err != nil || d != a.DTS) && !warned {
 					warned = true
 					fmt.Fprintf(os.Stderr, "mux harness: H265 DTS extractor disagrees with the abstract history at write %d: got %d (%v), history says dts %d pts %d\n", i, d, err, a.DTS, a.PTS)
+				}
+			}
+		}
+		if t.Kind == kH264 && h.H264Reorder && (a.RA || a.NonIDR) {
+			// the muxer feeds every unit with slices, from the first IDR on
+			ex := shadow264[a.Track]
+			if ex == nil && a.RA {
+				ex = &h264.DTSExtractor{}
+				ex.Initialize()
+				shadow264[a.Track] = ex
+			}
+			if ex != nil {
+				if d, err := ex.Extract(c.au, a.PTS); (err != nil || d != a.DTS) && !warned {
+					warned = true
+					fmt.Fprintf(os.Stderr, "mux harness: H264 DTS extractor disagrees with the abstract history at write %d: got %d (%v), history says dts %d pts %d\n", i, d, err, a.DTS, a.PTS)
 				}
 			}
 		}
@@ -342,8 +343,9 @@ type dpart struct {
 	nTracks  int
 }
 
-func videoID(payload []byte) int64 {
+func videoID(payload []byte, sliceHdr bool) int64 {
 	// AVCC: find the slice NALU (type 5 or 1), else any NALU carrying an id (SEI)
+	off := h264IDOffset(sliceHdr)
 	pos := 0
 	best := int64(-1)
 	for pos+4 <= len(payload) {
@@ -355,7 +357,10 @@ func videoID(payload []byte) int64 {
 		nalu := payload[pos : pos+n]
 		typ := nalu[0] & 0x1F
 		if typ == 5 || typ == 1 {
-			return decID(nalu[1:])
+			if len(nalu) < off {
+				return -1
+			}
+			return decID(nalu[off:])
 		}
 		if typ == 6 && best < 0 {
 			best = decID(nalu[1:])
@@ -383,7 +388,9 @@ func decodeParts(body []byte, kind int) ([]dpart, error) {
 					size: int64(len(s.Payload)), payload: s.Payload}
 				switch kind {
 				case kH264:
-					ds.id = videoID(s.Payload)
+					ds.id = videoID(s.Payload, false)
+				case kH264R:
+					ds.id = videoID(s.Payload, true)
 				case kH265:
 					ds.id = h265SampleID(s.Payload)
 				case kVP9:
@@ -498,7 +505,8 @@ func decodeTS(body []byte, ntracks int, kinds []int) ([]dunit, bool, error) {
 		}
 		ti := e.pid - 256
 		u := dunit{track: ti, pts: pts, dts: dts}
-		if kinds[ti] == kH264 {
+		if kinds[ti] == kH264 || kinds[ti] == kH264R {
+			idOff := h264IDOffset(kinds[ti] == kH264R)
 			// Annex-B
 			var nalus [][]byte
 			i, start := 0, -1
@@ -534,8 +542,8 @@ func decodeTS(body []byte, ntracks int, kinds []int) ([]dunit, bool, error) {
 				if t == 5 {
 					u.ra = true
 				}
-				if (t == 5 || t == 1) && len(n) > 8 {
-					id = decID(n[1:])
+				if (t == 5 || t == 1) && len(n) > 7+idOff {
+					id = decID(n[idOff:])
 				}
 				if t == 6 && id < 0 && len(n) > 8 {
 					id = decID(n[1:])
@@ -579,7 +587,7 @@ type rotation struct {
 	indexResp  response
 	snap       gohlslib.VerifMuxerState
 	newParts   [][]dpartRec // per stream: parts finalized by this write (decoded), with their segment
-	newTS      [][]dunit // per stream (mpegts): the segment published by this rotation
+	newTS      [][]dunit    // per stream (mpegts): the segment published by this rotation
 	tablesOK   []bool
 	segRotated bool
 	dirFiles   []string
@@ -618,7 +626,7 @@ func mkTracks(h *history) []*gohlslib.Track {
 		}
 		switch t.Kind {
 		case kH264:
-			tr.Codec = &codecs.H264{SPS: spsOf(t.Params0), PPS: ppsOf(t.Params0)}
+			tr.Codec = &codecs.H264{SPS: spsOf(h, t.Params0), PPS: ppsOf(t.Params0)}
 		case kH265:
 			tr.Codec = &codecs.H265{VPS: h265VPSOf(t.Params0), SPS: h265SPSOf(t.Params0), PPS: h265PPSOf(t.Params0)}
 		case kVP9:
@@ -777,12 +785,12 @@ func runImpl(h *history, dir string) (res *runResult) {
 		if h.Variant == 1 {
 			streamKinds[i] = 0
 		} else {
-			streamKinds[i] = h.Tracks[i].Kind
+			streamKinds[i] = decKind(h, h.Tracks[i].Kind)
 		}
 	}
 	tsKinds := make([]int, len(h.Tracks))
 	for i, t := range h.Tracks {
-		tsKinds[i] = t.Kind
+		tsKinds[i] = decKind(h, t.Kind)
 	}
 	everListed := map[string]bool{}
 
